@@ -268,7 +268,7 @@ func c19Apply(root string, t c19Tree, e c19Edit) {
 // ---------- the check ----------
 
 func C19(r *core.Run) map[string]interface{} {
-	r.Rule = "InMemLoader: breadth-first search over reference states (3 canonical paths x {absent,c1,c2}) with Set/Delete in 8 spellings each, plus every history of <=2 (thorough 3) operations, every spelling of every path queried after every operation; OS and http loaders: all 121 trees over {a,b} to depth 2 (absent/file/dir at every node) x every clean absolute path of <=3 segments, plus every edit history of <=3 (thorough 4) operations (create, replace file by directory and back, remove); embed loader: one embedded tree, every clean path; multi loader: all 729 stacks of 3 members (each of 2 paths absent/file/directory per member) x 2 member kinds x 4 ways of assembling the stack, plus every history of <=5 (thorough 6) operations over {member Set/Delete, AddLoaders, ClearLoaders, Exists, Open}; oracle: Exists iff regular file, Exists => Open yields exactly the stored bytes, first member that has the path answers"
+	r.Rule = "InMemLoader: breadth-first search over reference states (3 canonical paths x {absent,c1,c2}) with Set/Delete in 8 spellings each, plus every history of <=2 (thorough 3) operations, every spelling of every path queried after every operation; OS and http loaders: all 121 trees over {a,b} to depth 2 (absent/file/dir at every node) x every clean absolute path of <=3 segments, 44 trees with a symbolic link (to a file, a directory, a nested entry, nothing; consistency only: Exists => Open yields the bytes of the file the path leads to), plus every edit history of <=3 (thorough 4) operations (create, replace file by directory and back, remove); embed loader: one embedded tree, every clean path; multi loader: all 729 stacks of 3 members (each of 2 paths absent/file/directory per member) x 2 member kinds x 4 ways of assembling the stack, plus every history of <=5 (thorough 6) operations over {member Set/Delete, AddLoaders, ClearLoaders, Exists, Open}; oracle: Exists iff regular file, Exists => Open yields exactly the stored bytes, first member that has the path answers"
 	var states, transitions int64
 	tmp, err := os.MkdirTemp("", "c19-")
 	if err != nil {
@@ -368,6 +368,57 @@ func C19(r *core.Run) map[string]interface{} {
 	states += int64(len(trees))
 	transitions += int64(len(trees) * len(paths) * 2)
 	r.Sample(map[string]interface{}{"loader": "OSFileSystemLoader/httpfs", "tree": trees[37], "queries": paths})
+
+
+	// --- OS / http loaders: symbolic links. The statement does not say whether a link counts as "a regular file
+	// below the root", so only its first sentence is demanded here: Exists(p) => Open(p) yields the bytes of the
+	// regular file p leads to. A link to a directory or to nothing can therefore never be reported as existing.
+	linkTargets := []string{"/a", "/a/a", "/a/b", "/nowhere"}
+	r.ParallelFor(int64(11*len(linkTargets)), func(i int64) {
+		t := c19Tree{}
+		for k, v := range trees[int(i/int64(len(linkTargets)))*11] { // trees[ca*11+0]: node a = code ca, b absent
+			t[k] = v
+		}
+		target := linkTargets[i%int64(len(linkTargets))]
+		root := filepath.Join(tmp, fmt.Sprintf("link%d", i))
+		os.MkdirAll(root, 0o755)
+		defer os.RemoveAll(root)
+		if err := c19Materialise(root, t); err != nil {
+			panic(err)
+		}
+		rel := "." + target // /b -> ./a ... relative to the root directory
+		if err := os.Symlink(filepath.FromSlash(rel), filepath.Join(root, "b")); err != nil {
+			return // no symlinks on this file system
+		}
+		var desc []string
+		for k, v := range t {
+			desc = append(desc, k+"="+v)
+		}
+		sort.Strings(desc)
+		desc = append(desc, "/b -> "+target)
+		for name, l := range c19FSLoaders(root) {
+			for _, p := range paths {
+				q := p
+				if p == "/b" || strings.HasPrefix(p, "/b/") {
+					q = target + strings.TrimPrefix(p, "/b")
+				}
+				leadsTo, got := c19WantFS(t, q), c19Query(l, p)
+				r.Eval()
+				switch {
+				case got == "absent":
+					if q == p && leadsTo != "absent" {
+						viol(&c19Case{Loader: name, History: desc, Query: p, Want: leadsTo, Got: got})
+					}
+				case got != leadsTo:
+					viol(&c19Case{Loader: name, History: desc, Query: p, Want: "absent, or (only if it leads to a regular file) " + leadsTo, Got: got})
+				default:
+					r.Distinct(name + ":link:" + got)
+				}
+			}
+		}
+	})
+	states += int64(11 * len(linkTargets))
+	transitions += int64(11 * len(linkTargets) * len(paths) * 2)
 
 	// --- OS / http loaders: edit histories
 	ed := 3
@@ -631,10 +682,34 @@ func init() {
 				t[h[:i]] = h[i+1:]
 			}
 		}
-		if len(t) == 0 {
+		hasLink := false
+		for _, h := range c.History {
+			hasLink = hasLink || strings.HasPrefix(h, "/b -> ")
+		}
+		if len(t) == 0 && !hasLink {
 			return "replay of this loader case needs the explorer (run the check)"
 		}
 		c19Materialise(tmp, t)
+		for _, h := range c.History {
+			if strings.HasPrefix(h, "/b -> ") {
+				target := strings.TrimPrefix(h, "/b -> ")
+				os.Symlink(filepath.FromSlash("."+target), filepath.Join(tmp, "b"))
+				for name, l := range c19FSLoaders(tmp) {
+					if name != c.Loader {
+						continue
+					}
+					q := c.Query
+					if q == "/b" || strings.HasPrefix(q, "/b/") {
+						q = target + strings.TrimPrefix(q, "/b")
+					}
+					got, leadsTo := c19Query(l, c.Query), c19WantFS(t, q)
+					if got != "absent" && got != leadsTo {
+						return fmt.Sprintf("%s: %s answers %q although it leads to %q", name, c.Query, got, leadsTo)
+					}
+				}
+				return ""
+			}
+		}
 		for name, l := range c19FSLoaders(tmp) {
 			if name == c.Loader {
 				if got := c19Query(l, c.Query); got != c19WantFS(t, c.Query) {
